@@ -63,6 +63,7 @@ class Block:
         self.awaitcall = False
         self.unless = {}
         self.loop_optional = set()
+        self.stmt_optional = set()
         self.spec = []            # list of (text, tline)
         self.loops = {}           # n -> list of (text, tline)
         self.ats = []             # (anchor, where, nth, [(text,tline)])
@@ -188,6 +189,8 @@ def parse_template(path):
             cur.shape = rest.strip()
         elif word == 'stmt':
             section = cur.stmts.setdefault(int(rest.split()[0]), [])
+            if 'optional' in rest.split()[1:]:
+                cur.stmt_optional.add(int(rest.split()[0]))
         elif word == 'loopstart':
             section = cur.loopstart.setdefault(int(rest.split()[0]), [])
         elif word == 'loopend':
@@ -550,6 +553,9 @@ def extract_fn(repo, blk, meta, mode):
             try:
                 add_insert(starts[n], lines, 'proof')
             except IndexError:
+                if n in blk.stmt_optional:
+                    log.append(('S', 'statement #%d absent: the proof block in front of it is not emitted' % n, src_line))
+                    continue
                 raise X.LostAnchor('%s::%s: statement #%d not found (%d statements)' % (rel, kv['name'], n, len(starts)))
     # R36 shape guard: positional proof hints are placed by ordinal; they are only meaningful on the statement / loop they were written for
     shape_parts = []
@@ -571,7 +577,27 @@ def extract_fn(repo, blk, meta, mode):
             k1 = X._next_sig(body, k0)
             shape_parts.append('stmt%d=%s %s' % (n, body[k0].text, body[k1].text if k1 < len(body) else ''))
     cur_shape = ';'.join(shape_parts)
-    if blk.shape is not None and blk.shape != cur_shape:
+    def _shape_ok(rec, cur):
+        # the recorded shape, or the recorded shape with trailing loops gone whose invariants are all marked `optional` (a REMOVED loop is then verified as
+        # removed -- the clauses it was there for fail -- instead of losing the anchor)
+        if rec == cur:
+            return True
+        rp = dict(x.split('=', 1) for x in rec.split(';') if '=' in x)
+        cp = dict(x.split('=', 1) for x in cur.split(';') if '=' in x)
+        for k_ in set(rp) | set(cp):
+            if k_ == 'loops':
+                continue
+            if k_ in rp and k_ not in cp and k_.startswith('stmt') and int(k_[4:]) in blk.stmt_optional:
+                continue       # the statement an OPTIONAL proof block stood in front of is gone
+            if rp.get(k_) != cp.get(k_):
+                return False
+        rl = [x for x in rp.get('loops', '').split(',') if x]
+        cl_ = [x for x in cp.get('loops', '').split(',') if x]
+        if len(cl_) >= len(rl) or rl[:len(cl_)] != cl_:
+            return False
+        gone = range(len(cl_), len(rl))
+        return all((n_ in blk.loop_optional) or (n_ not in blk.loops and n_ not in blk.loopstart and n_ not in blk.loopend) for n_ in gone)
+    if blk.shape is not None and not _shape_ok(blk.shape, cur_shape):
         raise X.LostAnchor('%s::%s: the shape the positional proof hints were written for has changed (was `%s`, is `%s`): loop invariants / proof blocks cannot be placed' % (rel, kv['name'], blk.shape, cur_shape))
     for n, lines in blk.loopstart.items():
         if n >= len(loops) and n in blk.loop_optional:
@@ -726,13 +752,17 @@ def count_clauses(lines):
     return res
 
 
-def generate(repo, template, mode=None):
+def generate(repo, template, mode=None, isolate=False):
     """mode: None (verify) or 'canaryN'.
-    Returns dict(text, origin[], functions[], types[], log[], clauses[])"""
+    isolate: a function whose extraction loses an anchor is LEFT OUT (recorded in `skipped`, with the labels of its clauses) instead of failing the whole unit: if
+    nothing else in the unit calls it the rest is verified as usual and only that function's obligations are undecided; if something does, the unit does not compile
+    and is undecided as before.
+    Returns dict(text, origin[], functions[], types[], log[], clauses[], skipped[])"""
     items, meta = parse_template(template)
     em = Emitter()
     functions = []
     types = []
+    skipped = []
     for it in items:
         if it[0] == 'text':
             em.emit_lines([(it[1], dict(kind='tmpl', tline=it[2]))])
@@ -772,7 +802,19 @@ def generate(repo, template, mode=None):
             em.emit_lines(r['lines'])
             types.append(r)
             continue
-        r = extract_fn(repo, blk, meta, mode)
+        try:
+            r = extract_fn(repo, blk, meta, mode)
+        except X.LostAnchor as e:
+            if not isolate:
+                raise
+            labs = []
+            for ln, tl in blk.spec:
+                labs += re.findall(r'\[(C\d\d\.[^\]]+)\]', ln)
+            for n_, lines_ in blk.loops.items():
+                for ln, tl in lines_:
+                    labs += re.findall(r'\[(C\d\d\.[^\]]+)\]', ln)
+            skipped.append(dict(name=blk.kv.get('as') or blk.kv.get('name'), labels=sorted(set(labs)), reason=str(e), tline=blk.tline))
+            continue
         for a in blk.attrs:
             em.emit_lines([(a, dict(kind='tmpl', tline=blk.tline))])
         em.emit_lines([(r['sig'], dict(kind='sig', fn=r['name'], file=r['file'], line=r['line']))])
@@ -785,4 +827,4 @@ def generate(repo, template, mode=None):
         r['clauses'] = cl
         r['tline'] = blk.tline
         functions.append(r)
-    return dict(text='\n'.join(em.lines) + '\n', origin=em.origin, functions=functions, types=types, meta=meta)
+    return dict(text='\n'.join(em.lines) + '\n', origin=em.origin, functions=functions, types=types, meta=meta, skipped=skipped)
